@@ -1111,6 +1111,32 @@ def cases(tier):
         ]
     for c in dl:
         out.append(("case_del", c))
+    # --- data pixels whose sub-pixels touch many distinct vertices (fan around a degree-6 vertex): the sparse encoding needs more
+    #     than sub_size**2 + 2 columns (7 of fan7 for sub 2; 13 of fan14 for sub 3)
+    wide = [dict(mshape=[1, 1], sub="e", verts="fan7", plan="spread", mask=[[False]]),
+            dict(mshape=[1, 2], sub="d", verts="fan14", plan="spread", mask=M12),
+            dict(mshape=[1, 2], sub="a", verts="fan14", plan=["free", 0, 3, 7, 11], mask=M12)]
+    if not q:
+        wide += [dict(mshape=[1, 2], sub="e", verts="fan14", plan="spread", mask=M12),
+                 dict(mshape=[1, 2], sub="f", verts="fan14", plan="spread", mask=M12),
+                 dict(mshape=[1, 1], sub="e", verts="fan7", plan=["free", 1, 3, 4], mask=[[False]])]
+    for c in wide:
+        out.append(("case_del", c))
+    # --- histories on ONE mapper object: pixel_signals_from (adapt data symbolic where the arithmetic stays tractable) before / between
+    #     the evaluations of pix_sub_weights, mapping_matrix and unique_mappings; same references as everywhere else
+    O1, O2, O3 = ["signals", "matrix", "unique", "psw"], ["matrix", "signals", "unique"], ["signals", "unique", "matrix"]
+    hist = [("case_del", dict(mshape=[1, 1], sub="e", verts="v5", plan=[0, 1, 2, -1], mask=[[False]], order=O1, adapt="sym", scale=2.0)),
+            ("case_del", dict(mshape=[1, 2], sub="b", verts="v6", plan=["free", 1, 2, 3, 0], mask=M12, order=O2, adapt=[2.0, 0.5], scale=1.0)),
+            ("case_del", dict(mshape=[1, 1], sub="e", verts="fan7", plan="spread", mask=[[False]], order=O3, adapt="sym", scale=1.0)),
+            ("case_rect", dict(mshape=[1, 2], sub="a", H=3, W=3, box="A", anchors=[0, 1, 2, 3], regions=[[0, 1, 0, 1], None, [1, 2, 1, 2], [2, 2, 0, 2], [1, 1, 1, 1]],
+                               mask=M12, order=O3, adapt="sym", scale=1.0))]
+    if not q:
+        hist += [("case_del", dict(mshape=[1, 2], sub="a", verts="v5", plan=[0, "free", 2, 1, -1], mask=M12, order=O1, adapt=[3.0, 0.25], scale=2.0)),
+                 ("case_del", dict(mshape=[1, 1], sub="d", verts="v7", plan=[0, 1, 2, 3, 4, 5, 6, 0, "free"], mask=[[False]], order=O2, adapt="sym", scale=1.0)),
+                 ("case_del", dict(mshape=[2, 2], sub="b", verts="v5", plan=[0, 1, 2, 0, 1, 2, 1], mask=None, order=O3, adapt=[0.5, 2.0, 4.0, 1.5], scale=1.0)),
+                 ("case_rect", dict(mshape=[1, 2], sub="b", H=3, W=4, box="B", anchors=[4, 0, 0, 3], regions=[[0, 0, 1, 3], [1, 1, 0, 1], None, [2, 2, 2, 3], [0, 1, 3, 3]],
+                                    mask=M12, order=O2, adapt="sym", scale=2.0))]
+    out += hist
     # --- dense / sparse kernels on index tables: all tables by forking, or symbolic tables through the merge interpreter
     tb = [
         (dict(sub=[1, 2], K=1, P=3, sizes=[1, 1, 1, 1, 1]), {}),
